@@ -23,7 +23,7 @@ class Prop(BaseProp):
                 "subdirs_emptied_by_patterns"]
 
     def n_cases(self, tier):
-        return 400 if tier == "quick" else 6000
+        return 2500 if tier == "quick" else 25000
 
     def setup_worker(self):
         runner.cminx()
